@@ -20,7 +20,7 @@ import sys
 
 EXTRA = {"C01": ["C02"], "C02": ["C01", "C16", "C08"], "C03": ["C17"], "C05": ["C14"], "C06": ["C05"], "C07": ["C08", "C01"], "C08": ["C07"],
          "C09": ["C05", "C08", "C10"], "C10": ["C11", "C12", "C09"], "C11": ["C12"], "C12": ["C11", "C13"], "C13": ["C04", "C12", "C15"], "C14": ["C05"], "C16": ["C02", "C03"],
-         "C17": ["C03", "C01"], "C19": ["C20"], "C20": ["C09", "C05", "C07", "C08", "C13"], "C04": ["C13"]}
+         "C17": ["C03", "C01"], "C19": ["C20"], "C20": ["C09", "C05", "C07", "C08", "C13", "C11"], "C04": ["C13"]}
 FALLBACK_META = {
     "C05/1": dict(summary="Builder._get_condition_operand inlines the value of a Future that the Host already knows (from an earlier flush) as an immediate instead of loading the array entry at run time",
                   needs="a conditional on an array entry that an EARLIER subroutine wrote and the CURRENT subroutine modifies before the conditional (or a later flush changes): the branch then uses the stale host-side value"),
